@@ -5,7 +5,8 @@
     exactly the item's own length; optional sections restored exactly when present; TxNormalize; the reader golib had
     for message steps (always expects attributes) is refuted by NoStuck (named deviation).
 (A) Trace_Profile: real WriteStep / ToBytesStep / ReadStep, service.ToBytes / ToObject, TxRecord.Write / Read and the
-    packs that carry a profile, on generated streams; carried set derived from the real writer.  Generator `retain`:
+    packs that carry a profile, on generated streams; the fields demanded back = the set derived from the real writer
+    joined with the fields the reference format carries at the item's content (Profile!Demanded).  Generator `retain`:
     several streams encoded before any is decoded, every output the code handed back (DataOutputX, the slice of
     ToBytesStep / TxRecord.ToBytes, the pack of SetProfile) kept and looked at again later (Keep / Peek / Again).
     One TLC pass with Strict = TRUE (law + transcribed reference format: accepted there => accepted by the law alone);
@@ -186,7 +187,7 @@ def traces(run):
         binding_selftest(run, out, meta)
     run.assumptions += [
         "field values are projected by reflection and encoding/binary only (attribute / custom-field maps: the written side from the generator's shape, the read side through the map's public enumeration); the cursor is length - DataInputX.Available()",
-        "the carried set of an item is derived from the real writer by changing one field at a time at that item's own field values; on top of it the law demands the fields of every optional section named by the property whenever the section's presence condition (spec operators) holds, and their defaults when it does not",
+        "the carried set of an item is derived from the real writer by changing one field at a time at that item's own field values; the law demands it back together with every field the reference format of spec/Profile.tla carries at that content (Demanded: the optional sections named by the property are the only conditional ones), the fields of every optional section whenever the section's presence condition (spec operators) holds, and their defaults when it does not",
         "AbstractStep.Drop / AbstractStep.Opt and the shadowed AbstractService.Mtid/Mdepth/Mcaller of WasService are not on the wire by design (no writer byte depends on them): they are not demanded back",
         "custom fields: at most 255 entries (one count byte); nil and an empty table are the same record; attribute maps: present-but-empty is different from absent",
         "SqlStep_3 is not a step.Step (IsTrue/SetTrue take a byte) and reports SqlStepX's tag: it cannot be passed to WriteStep; its body writer/reader pair is driven bare (family `bare`, no tag byte)",
